@@ -128,10 +128,11 @@ def one(acc, d, driver, data, hist, idx):
         if not packed:
             return "pack-failed", f"pack_file raised {type(err).__name__}: {err}"
         copies["/files/f"] = True
+        content = {}  # path -> bytes, where it differs from `data` (a file embedded later at a path used before)
 
         def verify(stage):
             for p, wm in copies.items():
-                r = check_node(sub.mc, p, data, src.name, wm)
+                r = check_node(sub.mc, p, content.get(p, data), src.name, wm)
                 acc.count("readbacks")
                 if r:
                     return r[0], f"{r[1]} (stage {stage}, driver {driver}, history {hist})"
@@ -159,6 +160,8 @@ def one(acc, d, driver, data, hist, idx):
         steps = {
             "H1": [("commit",), ("copy", "files/f", "files/c1"), ("commit",), ("move", "files/c1", "moved/m"), ("reopen",), ("copy-nometa", "moved/m", "n")],
             "H2": [("copy", "files", "g2"), ("commit",), ("del", "files"), ("reopen",), ("merge",)],
+            # the embedded file is deleted and ANOTHER file embedded at the same path in a later patch, then touched by attributes
+            "H4": [("commit",), ("replace", "files/f"), ("attr", "files/f"), ("commit",), ("attr", "files/f"), ("copy", "files/f", "files/c4"), ("reopen",), ("merge",)],
             "H3": [("move", "files/f", "files/f2"), ("commit",), ("copyobj", "files/f2", "other", "f3"), ("commit",), ("del", "files/f2"), ("commit",), ("reopen",), ("merge",)],
         }[hist]
         for st in steps:
@@ -166,11 +169,23 @@ def one(acc, d, driver, data, hist, idx):
             k = st[0]
             if k in ("commit", "reopen"):
                 sub.boundary(k)
+            elif k == "replace":
+                del mc[st[1]]
+                second = (data[::-1] + b"|second version").replace(b"\x7f", b"~") or b"2"
+                src.unlink()
+                src.write_bytes(second)
+                pack_file(mc[st[1].rsplit("/", 1)[0]], src, target=st[1].rsplit("/", 1)[1])
+                content["/" + st[1]] = second
+                acc.count("files_replaced_at_same_path")
+            elif k == "attr":
+                mc[st[1]].attrs[f"note{len(mc[st[1]].attrs)}"] = "touched"
             elif k == "copy":
                 mc.copy(st[1], st[2])
                 for p in list(copies):
                     if E.is_sub("/" + st[1], p):
                         copies["/" + st[2] + p[len(st[1]) + 1:]] = copies[p]
+                        if p in content:
+                            content["/" + st[2] + p[len(st[1]) + 1:]] = content[p]
             elif k == "copy-nometa":
                 mc.copy(st[1], st[2], without_meta=True)
                 copies["/" + st[2]] = False
@@ -308,10 +323,10 @@ def units(tier, seed):
     rng = random.Random(seed)
     cor = corpus(rng, tier)
     us = []
-    hists = ["H1", "H2", "H3"]
+    hists = ["H1", "H2", "H3", "H4"]
     for i, data in enumerate(cor):
         for drv in ("h5", "ih5", "ih5mf") if tier == "thorough" or i % 3 == 0 else ("h5", "ih5"):
-            hs = hists if tier == "thorough" else [hists[(i + len(drv)) % 3]]
+            hs = hists if tier == "thorough" else [hists[(i + len(drv)) % 4]]
             for h in hs:
                 us.append({"i": i, "driver": drv, "hist": h, "seed": seed})
     return us
@@ -340,7 +355,7 @@ def run_unit(u, acc):
 
 def inconclusive(cov):
     c = cov["counters"]
-    return [f"monitor counter {k} is zero" for k in ("readbacks", "marker_cases", "cross_container_copies", "packed_with_given_metadata", "merged_records_read", "histories", "symlinked_sources") if not c.get(k)]
+    return [f"monitor counter {k} is zero" for k in ("readbacks", "marker_cases", "cross_container_copies", "packed_with_given_metadata", "files_replaced_at_same_path", "merged_records_read", "histories", "symlinked_sources") if not c.get(k)]
 
 
 def replay(case, acc):
